@@ -102,7 +102,7 @@ fn gen_content(r: &mut Rng, dense: bool) -> CanonicalJsonObject {
     c
 }
 
-fn gen_event(r: &mut Rng) -> CanonicalJsonObject {
+pub fn gen_event(r: &mut Rng) -> CanonicalJsonObject {
     let mut ev = CanonicalJsonObject::new();
     let dense = r.chance(1, 2);
     for k in TOP_KEYS {
